@@ -106,14 +106,15 @@ def _mk_hook(name, nargs):
                 STATE.outside.append((name,) + tuple(str(x) for x in a[:nargs]))
             return real(*a, **k)
         visible = any(r is not None and not is_private(r) for r in rs)
-        if kind != "probe":
-            STATE.dirty.update(r for r in rs if r is not None)
         op = (kind, name) + tuple(canon(r) for r in rs)
         w.real = tuple(r for r in rs if r is not None)
         if visible:
             w.point(op)
         else:
             w.private(op)
+        if kind != "probe":
+            # marked when the operation is actually executed (after the scheduling point)
+            STATE.dirty.update(r for r in rs if r is not None)
         try:
             res = real(*a, **k)
         except OSError as e:
@@ -140,14 +141,14 @@ def _os_open(path, flags, mode=0o777, *, dir_fd=None):
             STATE.outside.append(("os.open", str(path)))
         return REAL["os.open"](path, flags, mode, dir_fd=dir_fd)
     kind = "create" if flags & os.O_CREAT else ("open-w" if flags & (os.O_WRONLY | os.O_RDWR) else "open-r")
-    if kind != "open-r":
-        STATE.dirty.add(r)
     op = (kind, "os.open", canon(r))
     w.real = (r,)
     if is_private(r):
         w.private(op)
     else:
         w.point(op)
+    if kind != "open-r":
+        STATE.dirty.add(r)
     try:
         fd = REAL["os.open"](path, flags, mode, dir_fd=dir_fd)
     except OSError as e:
@@ -162,13 +163,13 @@ def _os_sendfile(out_fd, in_fd, offset, count, *a, **k):
     if w is not None:
         f = next((x for x in STATE.files if not x.closed and x._hs_fd == out_fd), None)
         if f is not None and f._hs_rel is not None:
-            STATE.dirty.add(f._hs_real())
             op = ("write", "sendfile", canon(f._hs_rel))
             w.real = (f._hs_real(),)
             if is_private(f._hs_rel):
                 w.private(op)
             else:
                 w.point(op)
+            STATE.dirty.add(f._hs_real())
     return REAL["os.sendfile"](out_fd, in_fd, offset, count, *a, **k)
 
 
@@ -194,14 +195,14 @@ class HFileIO(io.FileIO):
         w = cur()
         if w is None or self._hs_rel is None:
             return None
-        if kind == "write":
-            STATE.dirty.add(self._hs_real())
         op = (kind, name, canon(self._hs_rel))
         w.real = (self._hs_real(),)
         if is_private(self._hs_rel):
             w.private(op)
         else:
             w.point(op)
+        if kind == "write":
+            STATE.dirty.add(self._hs_real())
         return w, op
 
     def readinto(self, b):
@@ -262,8 +263,6 @@ def _open(file, mode="r", buffering=-1, encoding=None, errors=None, newline=None
     writing = any(c in mode for c in "wax+")
     creating = any(c in mode for c in "wax")
     kind = ("create" if creating else "open-w") if writing else "open-r"
-    if writing:
-        STATE.dirty.add(r)
     op = (kind, "open:" + mode.replace("b", "").replace("t", ""), canon(r))
     if opener is None:
         w.real = (r,)
@@ -271,6 +270,8 @@ def _open(file, mode="r", buffering=-1, encoding=None, errors=None, newline=None
             w.private(op)
         else:
             w.point(op)
+    if writing:
+        STATE.dirty.add(r)
     binary = "b" in mode
     rawmode = mode.replace("b", "").replace("t", "")
     try:
